@@ -150,12 +150,46 @@ def search(rep: C.Report, tier: str, broken):
                 off = np.array([0.0] + [r.uniform(-1, 1) for _ in range(nf - 1)])
                 wp = WallParams(widths=W, offsets=off)
                 eom._updateGrid(wp, vmid)
+                if shape % 2 == 1:
+                    # long tails (what _updateGrid chooses when out-of-equilibrium particles are included: mean free path >> wall width):
+                    # grid points far outside the wall, where the scalar background has saturated but the moments have not
+                    thick_ = float(np.max(W))
+                    grid.changePositionFalloffScale(10 * thick_, 10 * thick_, thick_, 0.0)
                 fields, dphi = eom.wallProfile(grid.xiValues, lowv, highv, wp)
-                Tprof, vprof = eom.findPlasmaProfile(c1, c2, vmid, fields, dphi, deltas, Tp, Tm)
+                # every second shape: supplied out-of-equilibrium moments (small, smooth, NOT vanishing in the tails of the grid)
+                with_moments = shape % 2 == 1
+                tout = np.zeros((2, grid.M - 1))
+                saved_particles = eom.particles
+                if with_moments:
+                    from types import SimpleNamespace as NS
+                    parts_ = [NS(totalDOFs=12, msqVacuum=(lambda f, y=0.3 * Tn ** 2: y)), NS(totalDOFs=6, msqVacuum=(lambda f, y=0.0: y))]
+                    zz = np.asarray(grid.xiValues) * Tn
+                    amp = 3e-4 * Tn ** 4
+                    Dm = {n_: np.array([amp * c_ * (1.0 + 0.5 * np.tanh(zz / 40.0 + k_) + 0.2 * np.sin(zz / 25.0)) / (Tn ** 2 if n_ == "Delta00" else 1.0)
+                                        for k_, c_ in enumerate((1.0, -0.6))])
+                          for n_ in ("Delta00", "Delta02", "Delta20", "Delta11")}
+                    deltas_used = NS(**{n_: NS(coefficients=v_) for n_, v_ in Dm.items()})
+                    eom.particles = parts_
+                    g2 = 1 / (1 - vmid ** 2)
+                    u0, u3 = math.sqrt(g2), math.sqrt(g2) * vmid
+                    ub0, ub3 = u3, u0
+                    for a_, pt in enumerate(parts_):
+                        msq_ = pt.msqVacuum(None)
+                        d00, d02, d20, d11 = (Dm[n_][a_] for n_ in ("Delta00", "Delta02", "Delta20", "Delta11"))
+                        A_, B_ = 3 * d20 - d02 - msq_ * d00, 3 * d02 - d20 + msq_ * d00
+                        tout[0] += pt.totalDOFs * (A_ * u3 * u0 + B_ * ub3 * ub0 + 2 * d11 * (u3 * ub0 + ub3 * u0)) / 2
+                        tout[1] += pt.totalDOFs * ((A_ * u3 * u3 + B_ * ub3 * ub3 + 4 * d11 * u3 * ub3) / 2 - (msq_ * d00 + d02 - d20) / 2)
+                else:
+                    deltas_used = deltas
+                try:
+                    Tprof, vprof = eom.findPlasmaProfile(c1, c2, vmid, fields, dphi, deltas_used, Tp, Tm)
+                finally:
+                    eom.particles = saved_particles
                 branch = "detonation" if vw > h.vJ else "deflag/hybrid"
                 info = {"model": kind, "params": params, "errTol": errTol, "vw": vw, "branch": branch, "widths_Tn": (W * Tn).tolist(), "offsets": off.tolist(),
                         "c1": float(c1), "c2": float(c2), "Tp": float(Tp), "Tm": float(Tm)}
-                rep.count(f"profiles {branch}")
+                rep.count(f"profiles {branch}" + (" with moments" if with_moments else ""))
+                info["with_out_of_equilibrium_moments"] = with_moments
                 if not eom.successTemperatureProfile:
                     rep.count("profile solver reported failure")
                     continue
@@ -165,8 +199,8 @@ def search(rep: C.Report, tier: str, broken):
                     T, v = float(Tprof[i]), float(vprof[i])
                     w = float(-T * th.effectivePotential.derivT(fp, T))
                     V = float(th.effectivePotential.evaluate(fp, T))
-                    t30 = w * v / (1 - v * v)
-                    t33 = 0.5 * float(np.sum(np.asarray(dp) ** 2)) - V + w * v * v / (1 - v * v)
+                    t30 = w * v / (1 - v * v) + tout[0][i]
+                    t33 = 0.5 * float(np.sum(np.asarray(dp) ** 2)) - V + w * v * v / (1 - v * v) + tout[1][i]
                     e = max(abs(t30 - c1) / abs(c1), abs(t33 - c2) / abs(c2))
                     if e > worst[0]:
                         worst = (e, i)
@@ -174,14 +208,31 @@ def search(rep: C.Report, tier: str, broken):
                 # the bracketed root is found to rtol = errTol/10 in T; T33 ~ T^4 => residual up to ~4 errTol/10 of c2
                 if worst[0] > errTol:
                     i = worst[1]
+                    # second stage: BACKWARD error.  The root finder stops when T is within xtol + rtol*T (rtol = errTol/10) of a root; near the
+                    # sonic point the residual is steep in T.  Recompute T33 along the T30 constraint at T(1 -+ 4 rtol): a sign change means
+                    # an exact solution lies within the solver's own tolerance of the returned temperature.
+                    fp_, dp_ = fields.getFieldPoint(i), dphi.getFieldPoint(i)
+
+                    def res33(T_):
+                        w_ = float(-T_ * th.effectivePotential.derivT(fp_, T_))
+                        s1_ = float(c1) - tout[0][i]
+                        v_ = (-w_ + math.sqrt(4 * s1_ ** 2 + w_ ** 2)) / (2 * s1_)
+                        return (0.5 * float(np.sum(np.asarray(dp_) ** 2)) - float(th.effectivePotential.evaluate(fp_, T_)) + w_ * v_ * v_ / (1 - v_ * v_)
+                                + tout[1][i] - float(c2)), v_
+                    T_i = float(Tprof[i])
+                    dlt = 4 * (1e-10 + errTol / 10 * T_i)
+                    (ra, _va), (rb, _vb), (r0, v0) = res33(T_i - dlt), res33(T_i + dlt), res33(T_i)
+                    if ra * rb <= 0 and abs(v0 - float(vprof[i])) <= 1e-6:
+                        rep.count("residual above errTol but an exact solution lies within the solver's temperature tolerance")
+                        continue
                     # no-root branch: the residual minimum is >= 0 and the minimiser is returned with the success flag still set
                     fp, dp = fields.getFieldPoint(i), dphi.getFieldPoint(i)
-                    lhs = eom.temperatureProfileEqLHS(fp, dp, float(Tprof[i]), c1, c2)
+                    lhs = eom.temperatureProfileEqLHS(fp, dp, float(Tprof[i]), float(c1) - tout[0][i], float(c2) - tout[1][i])
                     rep.violation("a grid point reported as successful does not reproduce the conserved T30/T33",
                                   dict(info, grid_index=int(i), T=float(Tprof[i]), v=float(vprof[i]), rel_residual=worst[0], lhs_at_returned_T=float(lhs)),
                                   finding_key=KEY_NOROOT if lhs > 0 else "C04:pointwise-conservation")
                 # far in front / behind: tends to the matching values
-                ends = ((Tprof[-1], vprof[-1], Tp, -vp, "front"), (Tprof[0], vprof[0], Tm, -vm, "behind"))
+                ends = ((Tprof[-1], vprof[-1], Tp, -vp, "front"), (Tprof[0], vprof[0], Tm, -vm, "behind")) if not with_moments else ()
                 for Tg, vg, Tw, vwant, where in ends:
                     if abs(Tg - Tw) > 2e-3 * Tw or abs(vg - vwant) > 2e-3:
                         rep.violation(f"profile far {where} the wall does not tend to the hydrodynamic matching values",
